@@ -53,7 +53,7 @@ Ltac brk H :=
 Definition is_send (k : kind) : bool := match k with KSend => true | _ => false end.
 
 (* which handle* outcomes are possible for which request *)
-Lemma rh_shape : forall g s c k,
+Lemma rh_shape0 : forall g s c k,
   match run_handler g s c k with
   | HSilent _ => k = KSend
   | HDisc _ => True
@@ -67,10 +67,26 @@ Proof.
            end; auto.
 Qed.
 
+(* with the OnCommandRead hook in front: an error reply to a send is possible, from the hook only *)
+Lemma rh_shape : forall g s c k,
+  match run_handler_rd g s c k with
+  | HSilent _ => k = KSend /\ rd_err c = false
+  | HDisc _ => True
+  | _ => rd_err c || negb (is_send k) = true
+  end.
+Proof.
+  intros g s c k. pose proof (rh_shape0 g s c k) as Sh. unfold run_handler_rd, rd_err.
+  destruct (c_read c); auto.
+  destruct (run_handler g s c k); auto; cbn [orb]; rewrite Sh; reflexivity.
+Qed.
+
 Lemma expects_eq : forall c k0 k,
   first_of frame_order c = Some k0 -> first_of handler_order c = Some k ->
-  expects c = negb (is_pong c) && negb (is_send k).
-Proof. intros c k0 k H1 H2; unfold expects; rewrite H1, H2; destruct k; reflexivity. Qed.
+  expects c = negb (is_pong c) && (rd_err c || negb (is_send k)).
+Proof.
+  intros c k0 k H1 H2; unfold expects; rewrite H1, H2; destruct k; cbn [is_send negb];
+    rewrite ?orb_true_r, ?orb_false_r; reflexivity.
+Qed.
 
 Lemma expects_pong : forall c, is_pong c = true -> expects c = false.
 Proof. intros c H; unfold expects; rewrite H; reflexivity. Qed.
@@ -129,7 +145,7 @@ Proof.
   2: { inversion H; subst s' o p. split; [apply Hbad|discriminate]. }
   rewrite (expects_eq c k0 k F K), P in H. cbn [negb andb] in H.
   pose proof (rh_shape g s c k) as Sh.
-  destruct (run_handler g s c k) as [code|code|inv r|  |inv| ] eqn:R.
+  destruct (run_handler_rd g s c k) as [code|code|inv r|  |inv| ] eqn:R.
   - (* HErr *) rewrite Sh in H. cbn [negb] in H.
     destruct (has KConnect c); inversion H; subst s' o p; cnt;
       destruct (connect_invoked s c k); cnt;
@@ -143,7 +159,7 @@ Proof.
       destruct (c_id c =? id); split; intros; try discriminate; lia.
   - (* HAsync *) rewrite Sh in H. cbn [negb] in H. inversion H; subst s' o p; cnt.
     destruct (c_id c =? id); split; intros; lia.
-  - (* HSilent *) subst k. cbn [is_send negb] in H. inversion H; subst s' o p; cnt.
+  - (* HSilent *) destruct Sh as [Sk Sr]; subst k. rewrite Sr in H. cbn [is_send negb orb] in H. inversion H; subst s' o p; cnt.
     destruct inv; cnt; split; intros; lia.
   - discriminate.
 Qed.
@@ -185,7 +201,7 @@ Proof.
   destruct (first_of handler_order c) as [k|].
   2: { inversion H; subst s' o p. rewrite niss_issue, Z by (simpl; intuition (subst; auto)).
        repeat split; try discriminate; auto; lia. }
-  destruct (run_handler g s c k) as [code|code|inv r|  |inv| ]; try discriminate.
+  destruct (run_handler_rd g s c k) as [code|code|inv r|  |inv| ]; try discriminate.
   - destruct (has KConnect c); inversion H; subst s' o p; rewrite niss_issue, Z;
       try (destruct (connect_invoked s c k); simpl; intuition (subst; auto));
       repeat split; try discriminate; auto; lia.
@@ -559,15 +575,17 @@ Theorem once_strict_refuted :
     id <> 0 /\ sent id ls = 1%nat /\ nrep id (concat os) = 0%nat.
 Proof.
   exists (mkCfg [KSend] false),
-         [LFrame [mkCmd 1 [KConnect] 0 false SOk] false; LFrame [mkCmd 7 [KSend] 0 false SOk] false].
+         [LFrame [mkCmd 1 [KConnect] 0 false SOk RdOk] false; LFrame [mkCmd 7 [KSend] 0 false SOk RdOk] false].
   eexists. eexists. exists 7. vm_compute. repeat split; try reflexivity. discriminate.
 Qed.
 
 (* ---------- gate / pong rules over runs: the observation-derived state tracks the model ---------- *)
 
 Definition script_wf (sc : script) : Prop := match sc with SErr 0 => False | _ => True end.
+Definition read_wf (r : rdres) : Prop := match r with RdErr 0 => False | _ => True end.
+Definition cmd_wf (c : cmd) : Prop := script_wf (c_script c) /\ read_wf (c_read c).
 Definition label_wf (l : label) : Prop :=
-  match l with LFrame cs _ => Forall (fun c => script_wf (c_script c)) cs | _ => True end.
+  match l with LFrame cs _ => Forall cmd_wf cs | _ => True end.
 
 Definition has_close (l : list out) : bool :=
   existsb (fun o => match o with OClose _ => true | _ => false end) l.
@@ -632,7 +650,7 @@ Proof.
   destruct (is_pong c). { destruct (s_ping s); inversion H; subst s' o p; cbn; auto. }
   destruct (first_of frame_order c) as [k0|]. 2: { inversion H; subst s' o p; cbn; auto. }
   destruct (first_of handler_order c) as [k|]. 2: { inversion H; subst s' o p; cbn; auto. }
-  destruct (run_handler g s c k) as [code|code|inv r|  |inv| ]; try discriminate.
+  destruct (run_handler_rd g s c k) as [code|code|inv r|  |inv| ]; try discriminate.
   - destruct (has KConnect c); inversion H; subst s' o p; destruct (connect_invoked s c k); cbn; auto.
   - inversion H; subst s' o p; destruct (connect_invoked s c k); cbn; auto.
   - destruct r; inversion H; subst s' o p; destruct inv; destruct k; cbn; rewrite ?Hc; auto.
@@ -655,15 +673,15 @@ Proof.
   rewrite Ha in G. cbn in G. apply negb_false_iff in G.
   destruct (is_pong c). { destruct (s_ping s); inversion H; subst s' o p; assumption. }
   destruct (first_of_connect c G) as [F1 F2]; rewrite F1, F2 in H.
-  unfold run_handler in H. rewrite Ha in H. cbn [connect_invoked] in H.
-  destruct (c_script c); rewrite ?G in H; inversion H; subst s' o p; cbn in *; try assumption; try discriminate.
+  unfold run_handler_rd, run_handler, connect_invoked, rd_ok in H. rewrite ?Ha in H.
+  destruct (c_read c); destruct (c_script c); rewrite ?G in H; inversion H; subst s' o p; cbn in *; try assumption; try discriminate.
 Qed.
 
 Lemma hc_scan : forall g s c s' o p a,
-  handle_command g s c = Some (s', o, p) -> script_wf (c_script c) -> rel a s ->
+  handle_command g s c = Some (s', o, p) -> cmd_wf c -> rel a s ->
   snd (scan_outs a (vis o)) = true /\ rel (fst (scan_outs a (vis o))) s'.
 Proof.
-  intros g s c s' o p a H W [Rc [Ra Rp]].
+  intros g s c s' o p a H [W W2] [Rc [Ra Rp]].
   destruct (s_auth s) eqn:Ha.
   - (* authenticated: nothing to check, only to track *)
     destruct (hc_flags _ _ _ _ _ _ H) as [Am [Cl _]]. rewrite Ha in Am.
@@ -681,11 +699,15 @@ Proof.
     destruct (is_pong c).
     { destruct (s_ping s); invs H; cbn; unfold rel; cbn; rewrite ?Hc, Ha; auto. }
     destruct (first_of_connect c G) as [F1 F2]; rewrite F1, F2 in H.
-    unfold run_handler in H. rewrite ?Ha in H. cbn [connect_invoked negb] in H. rewrite ?Ha, ?G in H. cbn [negb] in H.
-    destruct (c_script c) as [|code|code|] eqn:Sc; invs H; cbn;
-      unfold rel, optN_eqb; cbn; rewrite ?N.eqb_refl, ?Ra, ?Rc, ?Hc, ?Ha; cbn; auto.
-    (* connect error: error code is not 0, so it is not taken for a successful connect *)
-    destruct code; [contradiction|]. cbn. auto.
+    unfold run_handler_rd, run_handler, connect_invoked, rd_ok in H. rewrite ?Ha, ?G in H. cbn [negb andb] in H.
+    destruct (c_read c) as [|rcode|rcode] eqn:Rd.
+    + destruct (c_script c) as [|code|code|] eqn:Sc; invs H; cbn;
+        unfold rel, optN_eqb; cbn; rewrite ?N.eqb_refl, ?Ra, ?Rc, ?Hc, ?Ha; cbn; auto.
+      (* connect error: error code is not 0, so it is not taken for a successful connect *)
+      destruct code; [contradiction|]. cbn. auto.
+    + rewrite ?G in H. invs H; cbn; unfold rel, optN_eqb; cbn; rewrite ?N.eqb_refl, ?Ra, ?Rc, ?Hc, ?Ha; cbn; auto.
+      destruct rcode; [contradiction|]. cbn. auto.
+    + invs H; cbn; unfold rel, optN_eqb; cbn; rewrite ?N.eqb_refl, ?Ra, ?Rc, ?Hc, ?Ha; cbn; auto.
 Qed.
 
 Lemma scan_app_fst : forall l1 l2 a,
@@ -701,7 +723,7 @@ Proof.
   destruct (scan_outs a1 l2); reflexivity.
 Qed.
 
-Definition wf_cmds (cs : list cmd) : Prop := Forall (fun c => script_wf (c_script c)) cs.
+Definition wf_cmds (cs : list cmd) : Prop := Forall cmd_wf cs.
 
 Lemma hcs_scan : forall g cs s s' o p a,
   handle_cmds g s cs = Some (s', o, p) -> wf_cmds cs -> rel a s ->
@@ -766,7 +788,7 @@ Proof.
   destruct (negb (s_auth s) && negb (has KConnect c)). { inversion H; subst s' o p; reflexivity. }
   destruct (first_of frame_order c) as [k0|]. 2: { inversion H; subst s' o p; reflexivity. }
   destruct (first_of handler_order c) as [k|]. 2: { inversion H; subst s' o p; reflexivity. }
-  destruct (run_handler g s c k) as [code|code|inv r|  |inv| ]; try discriminate.
+  destruct (run_handler_rd g s c k) as [code|code|inv r|  |inv| ]; try discriminate.
   - destruct (has KConnect c); inversion H; subst s' o p; reflexivity.
   - inversion H; subst s' o p; reflexivity.
   - destruct r; inversion H; subst s' o p; try reflexivity. destruct k; reflexivity.
@@ -1003,3 +1025,31 @@ Qed.
 Theorem exec_steps_ok_init : forall g ls s' os,
   exec g init ls = Some (s', os) -> Forall label_wf ls -> steps_ok ost0 ls os = true.
 Proof. intros; eapply exec_steps_ok; eauto using tracks_init. Qed.
+
+(* ---- OnCommandRead hook ---- *)
+
+Lemma read_error_command : forall g s c k0 k code,
+  s_closed s = false -> s_unusable s = false -> s_auth s = true -> is_pong c = false ->
+  first_of frame_order c = Some k0 -> first_of handler_order c = Some k ->
+  c_read c = RdErr code -> has KConnect c = false ->
+  handle_command g s c = Some (s, [OIssue (c_id c) true; OReply (c_id c) code], true).
+Proof.
+  intros g s c k0 k code Hc Hu Ha P F K R Hn. unfold handle_command.
+  rewrite Hc, Hu, Ha, P, F, K. cbn [negb andb].
+  assert (E : expects c = true).
+  { rewrite (expects_eq c k0 k F K), P. unfold rd_err; rewrite R; reflexivity. }
+  rewrite E. unfold run_handler_rd, connect_invoked, rd_ok; rewrite R, Hn.
+  destruct k; cbn [andb app]; rewrite ?andb_false_r; reflexivity.
+Qed.
+
+Lemma read_disconnect_command : forall g s c k0 k code,
+  s_closed s = false -> s_unusable s = false -> s_auth s = true -> is_pong c = false ->
+  first_of frame_order c = Some k0 -> first_of handler_order c = Some k ->
+  c_read c = RdDisc code ->
+  handle_command g s c = Some (set_closed s, [OIssue (c_id c) (expects c); OClose code], false).
+Proof.
+  intros g s c k0 k code Hc Hu Ha P F K R. unfold handle_command.
+  rewrite Hc, Hu, Ha, P, F, K. cbn [negb andb].
+  unfold run_handler_rd, connect_invoked, rd_ok; rewrite R.
+  destruct k; cbn [andb app]; rewrite ?andb_false_r; reflexivity.
+Qed.
